@@ -45,22 +45,61 @@ def xml_of(tr, style=0):
     return '<%s%s>%s%s%s</%s>' % (k, sid, pad, sep.join(fmt(v) for v in vals), pad, k)
 
 
+SCALAR_FORMS = ['py', 'int8', 'uint8', 'int16', 'uint16', 'int32', 'uint32', 'int64', 'uint64', 'float16', 'float32', 'float64',
+                'arr0d-float64', 'arr0d-int32', 'pyfloat']
+
+
+def as_form(v, k):
+    """the number v in another Python form of the same value: numpy scalars of every dtype that holds it
+    exactly (float32 within rounding for non-integers), 0-d arrays, int vs float"""
+    name = SCALAR_FORMS[k % len(SCALAR_FORMS)]
+    fv = float(v)
+    if name == 'py':
+        return v
+    if name == 'pyfloat':
+        return fv
+    if name.startswith('arr0d-'):
+        dt = numpy.dtype(name[6:])
+        if dt.kind == 'i' and not fv.is_integer():
+            return v
+        return numpy.array(v, dtype=dt)
+    dt = numpy.dtype(name)
+    if dt.kind in 'iu':
+        if not fv.is_integer():
+            return v
+        info = numpy.iinfo(dt)
+        if not (info.min <= int(fv) <= info.max):
+            return v
+        return dt.type(int(fv))
+    if dt == numpy.float16 and float(numpy.float16(fv)) != fv:
+        return v
+    if dt == numpy.float32 and fv.is_integer() and float(numpy.float32(fv)) != fv:
+        return v
+    return dt.type(fv)
+
+
 def construct(tr, form):
     from collada import scene
     k = tr[0]
+    f = lambda v, i: as_form(v, form + 4 * i)
     if k == 'translate':
-        return scene.TranslateTransform(tr[1], tr[2], tr[3])
+        return scene.TranslateTransform(f(tr[1], 0), f(tr[2], 1), f(tr[3], 2))
     if k == 'scale':
-        return scene.ScaleTransform(tr[1], tr[2], tr[3])
+        return scene.ScaleTransform(f(tr[1], 0), f(tr[2], 1), f(tr[3], 2))
     if k == 'rotate':
-        return scene.RotateTransform(tr[1], tr[2], tr[3], tr[4])
+        # (no float16 here: the parameters of a rotation enter arithmetic, and half precision in gives half precision out)
+        g = lambda v, i: v if isinstance(f(v, i), numpy.float16) else f(v, i)
+        return scene.RotateTransform(g(tr[1], 0), g(tr[2], 1), g(tr[3], 2), g(tr[4], 3))
     if k == 'matrix':
-        return scene.MatrixTransform(numpy.array(tr[1], dtype=numpy.float32 if form % 2 else numpy.float64))
+        dts = [numpy.float32, numpy.float64, numpy.float64]
+        if all(float(v).is_integer() and abs(v) < 100 for v in tr[1]):
+            dts += [numpy.int16, numpy.int32, numpy.int64, numpy.float16]
+        return scene.MatrixTransform(numpy.array(tr[1], dtype=dts[form % len(dts)]))
     if k == 'lookat':
-        if form % 2:
+        if form % 3 == 1:
             return scene.LookAtTransform(list(tr[1]), list(tr[2]), list(tr[3]))
-        return scene.LookAtTransform(numpy.array(tr[1], dtype=numpy.float64), numpy.array(tr[2], dtype=numpy.float64),
-                                     numpy.array(tr[3], dtype=numpy.float64))
+        dt = numpy.float32 if (form % 3 == 2 and all(float(numpy.float32(v)) == float(v) for v in tr[1] + tr[2] + tr[3])) else numpy.float64
+        return scene.LookAtTransform(numpy.array(tr[1], dtype=dt), numpy.array(tr[2], dtype=dt), numpy.array(tr[3], dtype=dt))
     raise ValueError(k)
 
 
@@ -154,16 +193,32 @@ def product(mats):
     return P
 
 
-def check_product(node_matrix, mats, clause, what):
+def check_product(node_matrix, mats, clause, what, slack=None):
+    """|node.matrix - product| entry by entry against the float32 error model: a few 1e-7 per factor relative
+    to the product of the ABSOLUTE matrices (so a small entry made of small numbers is judged on its own
+    scale, whatever else the matrices contain), plus the first-order effect of the known uncertainty of the
+    factors (slack: per factor, absolute uncertainty of its 3x3 block - rotations evaluated in single precision)"""
     P = product(mats)
-    # float32 storage and products: a few 1e-7 per factor, relative to the product of the factors' norms
-    tol = 1e-5 * (3 + len(mats))
-    for m in mats:
-        tol *= size(m)
-    if not close(node_matrix, P, tol):
+    A = numpy.identity(4)
+    B = numpy.identity(4)
+    for i, m in enumerate(mats):
+        a = numpy.abs(numpy.asarray(m, dtype=numpy.float64))
+        A = A.dot(a)
+        d = numpy.zeros((4, 4))
+        if slack and slack[i]:
+            d[:3, :3] = slack[i]
+        B = B.dot(a + d)
+    tol = 4e-7 * (3 + len(mats)) * A + 2.0 * (B - A) + 1e-35
+    got = numpy.asarray(node_matrix, dtype=numpy.float64)
+    if got.shape != (4, 4) or not bool(numpy.all(numpy.isfinite(got))) or not bool(numpy.all(numpy.abs(got - P) <= tol)):
         return (clause, '%s: node.matrix = %r, product of the %d transform matrices in listed order = %r'
-                % (what, numpy.asarray(node_matrix).tolist(), len(mats), P.tolist()))
+                % (what, got.tolist(), len(mats), P.tolist()))
     return None
+
+
+def slack_of(trs):
+    """rotations (angle and axis through single precision) and lookats (unit vectors): 2e-6 on the 3x3 block"""
+    return [2e-6 if t[0] in ('rotate', 'lookat') else 0.0 for t in trs]
 
 
 def ints(M):
@@ -316,7 +371,8 @@ def run_case(case):
                 w = check_transform(tr, t.matrix, site)
                 if w:
                     fail(w[0], w[1])
-            w = check_product(node.matrix, [ref_or(tr, t) for tr, t in zip(final, node.transforms)], 'save-recomputes', label)
+            w = check_product(node.matrix, [ref_or(tr, t) for tr, t in zip(final, node.transforms)], 'save-recomputes', label,
+                              slack_of(final))
             if w:
                 fail(w[0], w[1], 'save')
         obs[key_m] = [ints(m) for m in mats]
@@ -339,7 +395,7 @@ def run_case(case):
              'reload')
     else:
         w = check_product(node2.matrix, [ref_or(tr, t) for tr, t in zip(final, node.transforms)], 'save-recomputes',
-                          'written and loaded again after %d + %d edit(s)' % (len(case['edits']), len(edits2)))
+                          'written and loaded again after %d + %d edit(s)' % (len(case['edits']), len(edits2)), slack_of(final))
         if w:
             fail(w[0], w[1], 'reload')
     obs['reloaded'] = ints(node2.matrix)
